@@ -227,7 +227,21 @@ theorem spec_bounds {D : Dataset} : ∀ (P : Alg), P.inFragment = true → (∀ 
     rcases valuesRow_may Row.empty vars r Row.empty μ hr v hv with h | h
     · exact h
     · simp at h
-  | .leftJoin _ _ _ _ _, hf, _, _, _, _ => by simp [Alg.inFragment] at hf
+  | .leftJoin a b e p1 p2, hf, hws, g, μ, h => by
+    simp only [Alg.inFragment, Bool.and_eq_true] at hf
+    have hwsa : ∀ v ∈ a.allVars, v < n := fun v hv => hws v (by simp [Alg.allVars, hv])
+    have hwsb : ∀ v ∈ b.allVars, v < n := fun v hv => hws v (by simp [Alg.allVars, hv])
+    simp only [Spec.eval, List.mem_append, List.mem_filter] at h
+    rcases h with ⟨hj, _⟩ | ⟨ha, _⟩
+    · simp only [joinBag, List.mem_flatMap, List.mem_filterMap] at hj
+      obtain ⟨μ1, h1, μ2, h2, he⟩ := hj
+      split at he
+      · cases he
+        have := (spec_bounds a hf.1.2 hwsa g μ1 h1).merge (spec_bounds b hf.2 hwsb g μ2 h2)
+        exact ⟨fun v hv => this.1 v (List.mem_append.mpr (Or.inl hv)), this.2⟩
+      · cases he
+    · have := spec_bounds a hf.1.2 hwsa g μ ha
+      exact ⟨this.1, fun v hv => List.mem_append.mpr (Or.inl (this.2 v hv))⟩
   | .minus a b _, hf, hws, g, μ, h => by
     simp only [Alg.inFragment, Bool.and_eq_true] at hf
     simp only [Spec.eval, minusBag, List.mem_filter] at h
